@@ -251,6 +251,8 @@ theorem decodeTokens_post (ll : List Nat) (dt : List (Bits × Nat)) : ∀ (fuel 
   | succ fuel ih =>
     intro plain bs
     rw [decodeTokens]
+    split
+    · exact Post.err
     refine Post.bind (decodeSym_post' ll bs) EF.false ?_
     intro ⟨sym, bs1⟩ h1
     simp only at h1 ⊢
@@ -314,6 +316,8 @@ theorem readBlock_post (plain : Array Nat) (bs : Bits) :
     · rw [if_pos hc]
       exact Post.err
     · rw [if_neg hc]
+      split
+      · exact Post.err
       refine Post.bind (readBytes_post len bs5) (fun _ h => h) ?_
       intro ⟨data, bs6⟩ h6
       simp only at h6 ⊢
